@@ -10,17 +10,17 @@ CHECKS = {
    text='Seeded search over generated projects whose analysis history contains re-export moves, duplicate definitions, import cycles, nested classes, field attributes and zope declarations, each analysed by the real model builder under every reachable module schedule (exhaustively per world when <= 720 schedules, else sampled); invariants I1-I8 over the whole registry after each run. Evidence, not proof: a clean batch says no generated history of that size broke an invariant.',
    note='Trusted: the world generator, the recording-only System subclass, the invariant checker (reads public attributes only). Known findings (genuine defects) are matched by root-cause signature and listed in known_findings.json.', ref='DESIGN.md 3/C02'),
  'C04': dict(cat='exploration', tech='deterministic simulation: schedule exploration + reference binding model validated against CPython',
-   text='Secondary claim: resolution happens during analysis and depends on which modules are already analysed; every schedule of each generated acyclic project is run and every name bound in every module/class namespace (plus module-alias attributes and recorded base classes) is compared with a binding table that is itself validated by importing the materialised project with CPython in the same task.',
+   text='Secondary claim: resolution happens during analysis and depends on which modules are already analysed; every schedule of each generated acyclic project is run and every name bound in every module/class namespace, every attribute of a module alias, every dotted name through a class (attribute lookup along the reference MRO, including aliases bound in base-class bodies) and every recorded base class is compared with a binding table that is itself validated by importing the materialised project with CPython in the same task.',
    note='Trusted: generator ground truth (cross-checked against CPython every task); quantifier restricted as in the property (acyclic, unique names, one binding per scope).', ref='DESIGN.md 3/C04'),
  'C05': dict(cat='exploration', tech='deterministic simulation: schedule exploration + reference C3 model validated against type.__mro__',
    text='Secondary claim: which of the two base-resolution passes resolves a base depends on the schedule. Sampled hierarchies (3-12 classes over several modules, subscripted bases, overriding members without docstrings, deliberately inconsistent orders) are analysed under every schedule; Class.mro(), Class.find() and inherited docstrings are compared with a 15-line C3 reference (validated against CPython for each consistent world); where Python rejects the hierarchy a message of section mro naming the class is required.',
    note='The exhaustive five-class enumeration in the quantifier is bounded model checking and is not attempted; classes whose bases are reached only through import chains (not guaranteed to resolve by C04) are not judged.', ref='DESIGN.md 3/C05'),
  'C06': dict(cat='exploration', tech='deterministic simulation: seeded/exhaustive module-schedule exploration with cross-schedule state comparison',
    text='Core claim. The processing schedule (order of module registration = System.unprocessed_modules) is owned by the simulator; for every generated world all reachable schedules (<= 720) or the shipped order, its reverse and seeded samples are run through the real builder, and a canonical dump keyed by object identity (type, kind, docstring, resolved bases, linearisation, location for objects with <= 1 re-exporter) must be equal across schedules; for cyclic worlds bases and linearisation only, as the property says. Interleavings are measured by hashing the nested processModule trace and reads of half-built modules.',
-   note='Trusted: generator, dump projection, signature classifier. Seven root-cause classes are recorded as known findings; three defects were repaired in /repo (fix: commits).', ref='DESIGN.md 3/C06'),
+   note='Trusted: generator, dump projection, signature classifier. Real trees (maintainers' test packages, pairs of them, and in the thorough tier pure-Python distributions from /venv) run through the os.listdir + model.sorted seam. Root-cause classes still open are recorded as known findings; the others were repaired in /repo (fix: commits, see known_findings.json).', ref='DESIGN.md 3/C06'),
  'C07': dict(cat='exploration', tech='deterministic simulation: schedule exploration + reference re-export model',
-   text='Generated packages with one re-exporter per object (package or sibling module; plain, renamed, star import) and consumers inside the package or in another root importing from the defining module, the re-exporter or both; every schedule; oracle = documented re-export rule for the location (exactly once, under the exported name, nothing left at the old name) and the binding truth for every reference (import alias, base class, old/new qualified name).',
-   note='Re-exports through import chains or aliases are outside the quantifier and accepted at either location. Rendered-link part (annotations, docstring cross-references) is covered by the render batch when present in evidence.', ref='DESIGN.md 3/C07'),
+   text='Generated packages with one re-exporter per object (package or sibling module; plain, renamed, star import) and consumers inside the package or in another root importing from the defining module, the re-exporter or both; every schedule; oracle = documented re-export rule for the location (exactly once, under the exported name, nothing left at the old name) and the binding truth for every reference: import alias, base class, old/new qualified name of the object and of its members (find_object), Name.member through an alias, and - with the real linkers - docstring cross-references by local / old / new qualified name and annotations, whose href must be the url of the one documented object; the moved object must also be the re-exporting module's contents entry.',
+   note='Re-exports through import chains or aliases are outside the quantifier and accepted at either location. Links are checked through the real linker objects on the model, not by crawling rendered pages.', ref='DESIGN.md 3/C07'),
  'C01': dict(cat='fault_enumeration', tech='deterministic simulation with fault injection: simulated-disk damage of source files x module schedules, full CLI runs',
    text='Containment part of C01. The real CLI entry point (options, model build, HTML, search index, inventory) runs in a forked child on generated multi-module worlds and on copies of the maintainers test packages after a simulated disk damaged one or two source files (torn, zero-filled tail, bit flips, lost, duplicated block, misdirected write, garbage, NUL bytes, cut inside a UTF-8 sequence), under a seeded processing schedule so that a broken module is reached at top level or on demand from inside another analysis. Oracle: main returns 0, 2 or 3, never raises or hangs; every analysed file that no longer parses is named at the start of a message; the summary, search and inventory files exist; and, when all damage is unparsable, every definition of every undamaged module is documented exactly once and appears on its page. Thorough tier enumerates every truncation offset of small files.',
    note='The "for all source trees" half of the quantifier is input space and only sampled. I/O errors are not injected (not promised). Two aborts found on valid-but-unusual inputs were repaired in /repo.', ref='DESIGN.md 3/C01'),
